@@ -15,7 +15,8 @@
      e_stat      what the file system answers for a path: missing / file / directory, with the
                  canonical path (std::fs::canonicalize; this is where symbolic links live);
      e_layout    the repositories that exist (root, kind);
-     e_run_fails whether checkpoint::run returns Err for a repository (git status failing, I/O);
+     e_run_fails whether checkpoint::run returns Err for a repository (git status refusing a pathspec such as
+                 `../ra/x`, the empty string or a NUL byte — known class C20-K7 — or I/O);
      e_allowed   Config::is_allowed_repository;
      e_other     the presets whose decoders are not modelled.
    Git facts used: a path is reported by `git status` of work tree R only if R is the innermost
@@ -562,6 +563,19 @@ Definition in_wd (E : env) (r : repo) (p : rawpath) : bool :=
   | None => prefixb (workdir r) (lexnorm p)
   end.
 
+(* `path_buf.strip_prefix(&repo_workdir)` on the path as written (components, `..` not resolved) *)
+Fixpoint raw_prefixb (a : path) (p : rawpath) : bool :=
+  match a, p with
+  | [], _ => true
+  | x :: a', SName y :: p' => str_eqb x y && raw_prefixb a' p'
+  | _ :: _, _ => false
+  end.
+
+(* the pathspec filter of checkpoint::run keeps a path when it is in the work dir AND can be made relative:
+   given relative, or the written path starts with the work dir, or both canonicalise *)
+Definition keeps (E : env) (r : repo) (p : rawpath) : bool :=
+  in_wd E r p && (raw_prefixb (workdir r) p || match canon E p with Some _ => true | None => false end).
+
 (* find_repository_for_file *)
 Definition outside (bnd : option path) (d : path) : bool :=
   match bnd with Some b => negb (prefixb b d) | None => false end.
@@ -575,10 +589,31 @@ Definition pick_skipping_submodules (l : layout) (d : path) : option repo :=
 Definition start_dir (E : env) (f : rawpath) : rawpath :=
   match e_stat E f with IsDir _ => f | _ => parent_raw f end.
 
+(* when the start directory cannot be canonicalised the walk runs over the path as written: `dir.parent()` is
+   lexical, `dir.join(".git").exists()` is answered by the file system, the boundary test compares components *)
+Fixpoint walk_raw (fuel : nat) (E : env) (b : option path) (d : rawpath) : option repo :=
+  match fuel with
+  | O => None
+  | S f =>
+      if match b with Some bb => negb (raw_prefixb bb d) | None => false end then None
+      else
+        let up := match d with [] => None | _ :: _ => walk_raw f E b (removelast d) end in
+        match e_stat E d with
+        | IsDir q => match pick_skipping_submodules (e_layout E) q with
+                     | Some r => Some r
+                     | None => up
+                     end
+        | _ => up
+        end
+  end.
+
 Definition find_for_file (E : env) (bnd : option rawpath) (f : rawpath) : option repo :=
-  let d := resolve E (start_dir E f) in
+  let sd := start_dir E f in
   let b := match bnd with Some x => Some (resolve E x) | None => None end in
-  up_find (S (length d)) (outside b) (pick_skipping_submodules (e_layout E)) d.
+  match canon E sd with
+  | Some d => up_find (S (length d)) (outside b) (pick_skipping_submodules (e_layout E)) d
+  | None => walk_raw (S (length sd)) E b sd
+  end.
 
 (* group_files_by_repository (a HashMap keyed by work dir: order is immaterial) *)
 Fixpoint add_to (r : repo) (f : rawpath) (g : list (repo * list rawpath)) : list (repo * list rawpath) :=
@@ -606,7 +641,7 @@ Record pass := mkPass { p_repo : repo; p_scope : scope; p_failed : bool }.
 Definition scope_of (E : env) (r : repo) (files : option (list rawpath)) : scope :=
   match files with
   | None => ScopeAll
-  | Some l => match filter (in_wd E r) l with
+  | Some l => match filter (keeps E r) l with
               | [] => ScopeAll
               | k => ScopeFiles k
               end
@@ -767,7 +802,7 @@ Definition recorded_in (E : env) (o : outcome) (q : path) (r : repo) : Prop := I
 Definition collapsed (E : env) (r : repo) (files : list rawpath) : bool :=
   match files with
   | [] => false
-  | _ :: _ => match filter (in_wd E r) files with [] => true | _ :: _ => false end
+  | _ :: _ => match filter (keeps E r) files with [] => true | _ :: _ => false end
   end.
 
 Definition has_scope_all (o : outcome) : bool :=
